@@ -150,6 +150,35 @@ def correspondence_plans(ctx, P: C.Part, n_cfg: int) -> None:
         P.hit(sched)
         P.nontrivial.add((sched,) + cfg_key(cfg))
         P.sample({"op": "plan", "sched": sched, "cfg": cfg, "nf": rp["nf"], "L_first_last": [rp["L"][0], rp["L"][-1]]})
+        # the GENERATED walk (translated from schedulers.py each run) must reproduce the same f, r, b, L, K
+        if sched in ("ltf", "new_ltf"):
+            gl = f"genwalk {'ltf' if sched == 'ltf' else 'new'} {cfg['N']} {C.f2h(cfg['fs'])} {C.f2h(cfg['olap'])} {C.f2h(cfg['bmin'])} {cfg['Lmin']} {cfg['Jdes']} {cfg['Kdes']}"
+            gr = ctx.driver.ask(gl)
+            if gr.startswith("ERR"):
+                P.disagreements.append({"op": "genwalk", "sched": sched, "cfg": cfg, "driver": gr})
+            else:
+                parts = gr.split(" | ")
+                gn = int(parts[0])
+                gL = [int(t) for t in parts[4].split()] if len(parts) > 4 else []
+                gK = [int(t) for t in parts[5].split()] if len(parts) > 5 else []
+                gf = [C.h2f(t) for t in parts[1].split()] if len(parts) > 1 else []
+                P.cases += 1
+                P.hit("genwalk-" + sched)
+                m = min(gn, rp["nf"])
+                gbad = None
+                for j in range(m):
+                    if gL[j] != rp["L"][j] or gK[j] != rp["K"][j] or not abs(gf[j] - float(rp["f"][j])) <= 1e-9 * abs(float(rp["f"][j])):
+                        gbad = j
+                        break
+                if gbad is None and gn != rp["nf"]:
+                    gbad = m
+                if gbad is not None:
+                    if unstable(sched, cfg, rp, gbad):
+                        P.unstable += 1
+                    else:
+                        P.disagreements.append({"op": "genwalk", "sched": sched, "cfg": cfg, "bin": gbad,
+                                                "generated": {"nf": gn, "L": gL[max(0, gbad - 1):gbad + 2], "K": gK[max(0, gbad - 1):gbad + 2]},
+                                                "impl": {"nf": rp["nf"], "L": rp["L"][max(0, gbad - 1):gbad + 2], "K": rp["K"][max(0, gbad - 1):gbad + 2]}})
         n = min(rp["nf"], mp["nf"])
         bad = None
         for j in range(n):
